@@ -115,6 +115,13 @@ UNITS.append(flow.Unit('noh2', groups=['noh2'], props=['props/C01_noh2.v'],
                        oracle=O.pde_oracle('Noh2', 'noh2', spec=G, rt=noh2_rt)))
 
 
+import riemann_corr as RC
+import riemann_oracles as RO
+UNITS.append(flow.Unit('riemann-igeos-fans', groups=['riemann'], props=['props/C01_riemann.v'],
+                       custom_corr=RC.unit_corr, oracle=None,
+                       note='rarefaction fans of the ideal-gas Riemann solver (left and right), any gamma'))
+
+
 def run(report, tier, rng):
     report.assumptions += [
         'real-number semantics of the generated model (IEEE rounding not modelled; measured by the correspondence goals)',
